@@ -42,6 +42,13 @@ class Run:
     def add(self, scen):
         self.scenarios.extend(scen)
 
+    def add_proofs(self):
+        """Thorough tier: the TLAPS proofs of AidlProofs.tla (frame lemmas, KeysExact inductive, Locality) are re-checked."""
+        if self.tier != "thorough":
+            return
+        n = C.run_proofs("AidlProofs", wdir=self.wdir)
+        self.models.append({"module": "AidlProofs (tlapm)", "env": {}, "obligations_proved": n})
+
 
 def scenario_hash(sc):
     h = hashlib.sha1()
@@ -437,6 +444,7 @@ def nt_history(sc, evs):
 @plan("C12")
 def c12(run):
     q = run.tier == "quick"
+    run.add_proofs()
     scs = []
     for s in hist_model(run, "hist", 3 if q else 4, "core", "empty"):
         scs.append(F.hist_scenario(s, "mc-hist-empty-core"))
@@ -470,6 +478,7 @@ def nt_perturb(sc, evs):
 @plan("C13")
 def c13(run):
     q = run.tier == "quick"
+    run.add_proofs()
     scs = [F.trans_scenario(s, "mc-trans") for s in hist_model(run, "trans", 1, "core", "all", "rich")]
     run.add(scs)
     run.add(F.random_perturbations(run.rng, 200 if q else 3000))
@@ -568,6 +577,7 @@ def nt_soup(sc, evs):
 @plan("C01")
 def c01(run):
     q = run.tier == "quick"
+    run.add_proofs()
     g = F.ProjGen(run.rng, "C01")
     base = []
     for _ in range(12 if q else 40):
